@@ -172,6 +172,7 @@ type c11Exec struct {
 	payloads  int
 	panicAt   int // -1 never
 	subErr    bool
+	panicInDispatch bool // user code that runs inside DispatchOperation itself (an operation interceptor, a subscription directive) panics
 	longLived bool // after the payloads, wait for the operation context to be cancelled
 	mu        sync.Mutex
 	started   int
@@ -206,6 +207,9 @@ func (e *c11Exec) CreateOperationContext(ctx context.Context, params *graphql.Ra
 
 func (e *c11Exec) DispatchOperation(ctx context.Context, rc *graphql.OperationContext) (graphql.ResponseHandler, context.Context) {
 	e.count(&e.started)
+	if e.panicInDispatch {
+		panic("operation interceptor panic")
+	}
 	n := 0
 	return func(ctx context.Context) *graphql.Response {
 		k := n
@@ -347,6 +351,7 @@ func Harness_C11_init() {
 func Harness_C11_subscribe() {
 	c11Subprotocol = graphqltransportwsSubprotocol
 	ex := &c11Exec{mode: zzsym.Choice("verdict", 3), payloads: zzsym.Choice("payloads", zzsym.Param("maxpayloads", 2)+1), panicAt: zzsym.Choice("panicAt", zzsym.Param("maxpayloads", 2)+2) - 1, subErr: zzsym.Bool("subErr")}
+	ex.panicInDispatch = ex.mode == 0 && ex.panicAt < 0 && !ex.subErr && zzsym.Choice("panicInDispatch", 2) == 1
 	me := &c11ME{}
 	cf := &c11Conf{}
 	c := c11New(me, ex, cf, 0)
@@ -370,6 +375,10 @@ func Harness_C11_subscribe() {
 		wantData := ex.payloads
 		if ex.panicAt >= 0 && ex.panicAt < ex.payloads {
 			wantData = ex.panicAt
+		}
+		if ex.panicInDispatch {
+			wantData = 0
+			zzsym.Assert(len(fr) > 0 && fr[0] == errorMessageType, "a panic while the operation is dispatched is answered with an error for its id")
 		}
 		zzsym.Assert(nd == wantData, "every result produced before the end is delivered, in order")
 		zzsym.Reach("c11.sub.ran")
